@@ -238,7 +238,7 @@ _sqrt_generic = _mk_unary("sqrt", lambda e: e.sqrt(), _py_sqrt)
 # Opt-in (set by a harness inside its worker process, e.g. C08/C12): np.sqrt(<plain Python/NumPy integer>) such as
 # the np.sqrt(3) of the Gauss loops returns the exact algebraic constant (s > 0, s*s = 3) instead of the float
 # 1.7320508075688772.  Default off: native scalars keep going to the real numpy.
-EXACT_SCALAR_SQRT = False
+EXACT_SCALAR_SQRT = True
 
 
 def sqrt(x, *a, **k):
